@@ -42,6 +42,7 @@ class ClassInfo:
         self.consts = {}       # name -> ast literal (from __init__: self.x = literal)
         self.is_enum = any(isinstance(b, ast.Attribute) and b.attr == "Enum" for b in node.bases)
         self.enum_members = []
+        self.str_consts = {}
         for st in node.body:
             if isinstance(st, ast.AnnAssign) and isinstance(st.target, ast.Name):
                 ann = ast.unparse(st.annotation)
@@ -51,6 +52,9 @@ class ClassInfo:
             elif isinstance(st, ast.Assign) and self.is_enum:
                 for t in st.targets:
                     self.enum_members.append(t.id)
+            elif (isinstance(st, ast.Assign) and len(st.targets) == 1 and isinstance(st.targets[0], ast.Name)
+                  and isinstance(st.value, ast.Constant) and isinstance(st.value.value, str)):
+                self.str_consts[st.targets[0].id] = st.value.value
             elif isinstance(st, ast.FunctionDef):
                 self.methods[st.name] = st
                 if st.name == "__init__":
@@ -103,9 +107,19 @@ class World:
         fs = []
         for c in reversed(self.mro(cname)):
             for f in self.classes[c].fields:
-                if f[0] not in [x[0] for x in fs]:
+                names = [x[0] for x in fs]
+                if f[0] in names:
+                    fs[names.index(f[0])] = f      # redefinition in a subclass wins
+                else:
                     fs.append(f)
         return fs
+
+    def specialise(self, newname, base, field_types: dict):
+        """A synthetic subclass of `base` whose abstractly-typed fields get concrete classes."""
+        node = ast.parse("class %s(%s):\n%s" % (newname, base, "\n".join(
+            "    %s: %s" % (f, t) for f, t in field_types.items()))).body[0]
+        self.classes[newname] = ClassInfo(newname, node, "<synthetic>")
+        return newname
 
     def find_method(self, cname, m):
         for c in self.mro(cname):
@@ -131,6 +145,7 @@ class Translator:
         self.defs = []           # emitted (kind, name, ir-ish) in dependency order
         self.done = {}           # key -> (coq name, return type)
         self.records = []        # class names emitted as records
+        self.tables = {}         # literal class-constant lists emitted as definitions
         self.record_name = record_name or (lambda c: c)
 
     # ------------------------------------------------------------------ records
@@ -139,7 +154,7 @@ class Translator:
             return
         fs = self.w.all_fields(cname)
         for (f, ann, _d) in fs:
-            if ann in ("float", "int"):
+            if ann in ("float", "int", "str"):
                 continue
             if ann in self.w.classes and not self.w.classes[ann].is_enum:
                 self.need_record(ann)
@@ -150,7 +165,7 @@ class Translator:
     def field_type(self, cname, f):
         for (n, ann, _d) in self.w.all_fields(cname):
             if n == f:
-                return "Q" if ann in ("float", "int") else ("rec", ann)
+                return "Q" if ann in ("float", "int") else ("S" if ann == "str" else ("rec", ann))
         return None
 
     def field_default(self, cname, f):
@@ -219,6 +234,8 @@ class Translator:
                 self.need_record(ann[5:-1])
             elif ann == "bool":
                 t = "B"
+            elif ann == "str":
+                t = "S"
             else:
                 raise Unsupported("parameter %s of %s.%s : %s" % (a.arg, cname, mname, ann))
             env[a.arg] = (("var", a.arg), t)
@@ -285,8 +302,9 @@ class FuncTr:
             if isinstance(e.value, bool):
                 return ("bool", e.value), "B"
             if isinstance(e.value, (int, float)):
-                src = ast.get_source_segment(self.src, e) if getattr(self, "src", None) else None
                 return ("num", repr(e.value)), "Q"
+            if isinstance(e.value, str):
+                return ("str", e.value), "S"
             fail(e, "constant")
         if isinstance(e, ast.Name):
             if e.id in self.env:
@@ -330,6 +348,9 @@ class FuncTr:
                 return ("bool", st), "B"
             a, ta = self.expr(e.left)
             b, tb = self.expr(e.comparators[0])
+            if ta == "S" and tb == "S" and isinstance(e.ops[0], (ast.Eq, ast.NotEq)):
+                ir = ("streq", a, b)
+                return (ir if isinstance(e.ops[0], ast.Eq) else ("not", ir)), "B"
             self.want(ta, "Q", e)
             self.want(tb, "Q", e)
             if type(e.ops[0]) not in CMPOPS:
@@ -355,6 +376,9 @@ class FuncTr:
             if ta != tb:
                 fail(e, "ternary branches of different types")
             return ("if", c, a, b), ta
+        if isinstance(e, ast.Attribute) and isinstance(e.value, ast.Name) and e.value.id in self.w.classes \
+                and e.attr in self.w.classes[e.value.id].str_consts and e.value.id not in self.env:
+            return ("str", self.w.classes[e.value.id].str_consts[e.attr]), "S"
         if isinstance(e, ast.Attribute):
             # self._const
             if isinstance(e.value, ast.Name) and e.value.id == "self":
@@ -362,7 +386,15 @@ class FuncTr:
                     return ("var", self.selffields[e.attr]), "Q"
                 c = self.w.find_const(self.cname, e.attr)
                 if c is not None and self.tr.field_type(self.cname, e.attr) is None:
-                    return self.const_value(c)
+                    ir, t = self.const_value(c)
+                    if isinstance(t, tuple) and t[0] == "list":
+                        # literal tables become their own definition (named after the attribute)
+                        gname = "%s_%s" % (self.cname, e.attr.strip("_"))
+                        if gname not in self.tr.tables:
+                            self.tr.tables[gname] = ir
+                            self.tr.defs.append(("def", gname, [], t, ir))
+                        return ("var", gname), t
+                    return ir, t
             a, ta = self.expr(e.value)
             if not is_rec(ta):
                 fail(e, "attribute of non-record")
@@ -416,6 +448,8 @@ class FuncTr:
                 return a, "Q"
             if f.id == "len" and len(e.args) == 1:
                 a, ta = self.expr(e.args[0])
+                if a[0] == "var" and a[1] in self.tr.tables:
+                    a = self.tr.tables[a[1]]
                 if a[0] == "list":
                     return ("num", repr(len(a[1]))), "Q"
                 return ("len", a), "Q"
@@ -727,6 +761,8 @@ class Render:
             return "Q" if self.dom == "Q" else "float"
         if t == "B":
             return "bool"
+        if t == "S":
+            return "string"
         if is_rec(t):
             return self.p + t[1]
         if t[0] == "list":
@@ -752,8 +788,14 @@ class Render:
             return self.num(ir[1])
         if k == "bool":
             return "true" if ir[1] else "false"
+        if k == "str":
+            if any(ord(c) > 126 or ord(c) < 32 or c == '"' for c in ir[1]):
+                raise Unsupported("string literal %r" % ir[1])
+            return '"%s"%%string' % ir[1]
+        if k == "streq":
+            return "(String.eqb %s %s)" % (self.e(ir[1]), self.e(ir[2]))
         if k == "var":
-            return ir[1]
+            return (self.p + ir[1]) if ir[1] in self.tr.tables else ir[1]
         if k == "neg":
             return "(- %s)" % self.e(ir[1]) if self.dom == "Q" else "(PrimFloat.opp %s)" % self.e(ir[1])
         if k == "not":
